@@ -59,12 +59,77 @@ CODES = {
 }
 
 
+def _eds_value(dt, v):
+    if dt == rc.BOOLEAN:
+        return "1" if v else "0"
+    if dt in rc.INTEGERS:
+        return str(v) if v < 0 or v % 3 == 0 else f"0x{v:X}"
+    if dt in rc.REALS:
+        return repr(float(v))
+    if dt in (rc.OCTET_STRING, rc.DOMAIN):
+        return bytes(v).hex()
+    return v
+
+
+def render_eds(spec, with_values):
+    """Minimal independent EDS/DCF writer for the dictionary specs of this module:
+    defaults become DefaultValue, parameter values ParameterValue (DCF only)."""
+    lines = ["[FileInfo]", "FileName=generated", "", "[DeviceInfo]", "VendorName=verif", ""]
+    idx = [o["index"] for o in spec]
+    lines += ["[MandatoryObjects]", "SupportedObjects=0", "", "[OptionalObjects]",
+              f"SupportedObjects={len(idx)}"] + [f"{k + 1}=0x{i:04X}" for k, i in enumerate(idx)] + [""]
+
+    def var(section, v, otype):
+        out = [f"[{section}]", f"ParameterName={v['name']}", f"ObjectType=0x{otype:X}",
+               f"DataType=0x{v['dt']:04X}", f"AccessType={v.get('access', 'rw')}"]
+        if v.get("default") is not None:
+            out.append(f"DefaultValue={_eds_value(v['dt'], v['default'])}")
+        if with_values and v.get("value") is not None:
+            out.append(f"ParameterValue={_eds_value(v['dt'], v['value'])}")
+        out += ["PDOMapping=0", ""]
+        return out
+
+    for o in spec:
+        if o["kind"] == "var":
+            lines += var(f"{o['index']:04X}", o, 7)
+        else:
+            lines += [f"[{o['index']:04X}]", f"ParameterName={o['name']}",
+                      f"ObjectType=0x{8 if o['kind'] == 'array' else 9:X}", f"SubNumber={len(o['members'])}", ""]
+            for m in o["members"]:
+                lines += var(f"{o['index']:04X}sub{m['sub']:X}", m, 7)
+    return "\n".join(lines) + "\n"
+
+
+def eds_safe(spec):
+    """True when every textual value survives an INI file unchanged (the writer does no quoting:
+    leading/trailing blanks, ';' comments and line breaks would not)."""
+    for _i, _s, v, _k in entries(spec):
+        for key in ("default", "value"):
+            x = v.get(key)
+            if isinstance(x, str) and (x != x.strip() or ";" in x or any(ord(c) < 32 or ord(c) == 127 for c in x)
+                                       or any(c.isspace() and c != " " for c in x)):
+                return False
+            if v["dt"] in (rc.OCTET_STRING, rc.DOMAIN) and x is not None and not isinstance(x, (bytes, bytearray)):
+                return False
+    return True
+
+
 class Rig:
     def __init__(self, case):
+        import io
+
         import canopen
         self.hub = Hub()
         self.net, self.port = self.hub.attach("server")
-        self.od = build_od(case["od"])
+        src = case.get("source", "code")
+        if src in ("eds", "dcf") and eds_safe(case["od"]):
+            fp = io.StringIO(render_eds(case["od"], with_values=(src == "dcf")))
+            fp.name = "generated." + src
+            self.od = canopen.import_od(fp, NODE)
+            self.from_text = src
+        else:
+            self.od = build_od(case["od"])
+            self.from_text = None
         self.node = canopen.LocalNode(NODE, self.od)
         self.net.add_node(self.node)
         self.collected = []
@@ -106,6 +171,12 @@ class Rig:
 
 class Model:
     def __init__(self, case):
+        if case.get("source") == "eds" and eds_safe(case["od"]):
+            # an EDS carries defaults only
+            import copy
+            case = copy.deepcopy(case)
+            for _i, _s, v, _k in entries(case["od"]):
+                v.pop("value", None)
         self.ent = {}
         self.kinds = {}
         for o in case["od"]:
@@ -190,11 +261,18 @@ def _store_snapshot(node):
 
 
 def run_history(case, prefix):
-    rig = Rig(case)
+    try:
+        rig = Rig(case)
+    except Exception as e:   # building the node from the generated dictionary must not fail
+        return Outcome(True, "setup", [Discrepancy(f"{prefix}/setup-raises",
+                                                   f"creating the local node (source {case.get('source', 'code')}) "
+                                                   f"raised {type(e).__name__}: {e}")]), set()
     m = Model(case)
     cl = rig.client
     D = []
     feats = set()
+    if rig.from_text:
+        feats.add("dict-from-" + rig.from_text)
 
     def bad(kind, detail):
         D.append(Discrepancy(f"{prefix}/{kind}", detail))
@@ -600,6 +678,7 @@ def history(draw, max_len, refusal_bias=False, max_ops=14):
         case["read_cb"] = cbs
     if draw(st.integers(0, 4)) == 0:
         case["two_write_cbs"] = True
+    case["source"] = draw(st.sampled_from(["code", "code", "eds", "dcf"]))
     used = {o["index"] for o in od}
     ops = []
     for _ in range(draw(st.integers(1, max_ops))):
